@@ -62,6 +62,8 @@ type Case struct {
 	Msg       string   `json:"msg"`
 	Details   []Detail `json:"details"`
 	After     int      `json:"after"`     // replies sent before the error (server streaming); -1 = unary method
+	ReqType   string   `json:"req_type"`  // httpjson, unary: the request is a raw upload with this (unregistered) Content-Type
+	Accept    string   `json:"accept"`    // ... and this Accept header ("" = none)
 	HeaderOp  string   `json:"header_op"` // what the handler does before failing: "" nothing | "set" grpc.SetHeader | "send" grpc.SendHeader
 	JSONSub   bool     `json:"json_sub"`  // gRPC-web: the message sub-codec is +json instead of +proto (status details stay a binary google.rpc.Status)
 	Gzip      bool     `json:"gzip"`      // gRPC family: the call negotiates per-message gzip (request and replies compressed)
@@ -81,6 +83,7 @@ func theWorld() *dyn.World {
 		fs.AdditionalBindings = []*annotations.HttpRule{{Pattern: &annotations.HttpRule_Custom{Custom: &annotations.CustomHttpPattern{Kind: "websocket", Path: "/c5/ws"}}, Body: "*"}}
 		world = uni.WorldWith(dyn.Svc("C5",
 			dyn.MethodSpec{Name: "Fail", In: ".un.All", Out: ".un.All", Rule: post("/c5/fail")},
+			dyn.MethodSpec{Name: "FailUp", In: ".un.UploadReq", Out: ".un.All", Rule: &annotations.HttpRule{Pattern: &annotations.HttpRule_Post{Post: "/c5/up/{name}"}, Body: "file"}},
 			dyn.MethodSpec{Name: "FailStream", In: ".un.All", Out: ".un.All", ServerStream: true, Rule: fs},
 		))
 	})
@@ -227,7 +230,17 @@ func Check(c Case) []evid.Violation {
 		if c.Transport == "httpproto" {
 			hdr.Set("Accept", "application/protobuf")
 		}
-		res := drive.Serve(mux, drive.Request("POST", path, "", hdr, bytes.NewReader(body()), int64(len(body()))))
+		reqBody := body()
+		if c.ReqType != "" && c.After < 0 {
+			// a raw upload: the request's own content type names no codec the error could be written in
+			path, reqBody = "/c5/up/f1", []byte("\xff\xd8raw bytes")
+			hdr.Set("Content-Type", c.ReqType)
+			hdr.Del("Accept")
+			if c.Accept != "" {
+				hdr.Set("Accept", c.Accept)
+			}
+		}
+		res := drive.Serve(mux, drive.Request("POST", path, "", hdr, bytes.NewReader(reqBody), int64(len(reqBody))))
 		if res.Panic != nil {
 			return fail("no-response", res.PanicSig(), "panic: %v", res.Panic)
 		}
@@ -529,6 +542,10 @@ func genCase(t *rapid.T, transports []string) Case {
 		c.Gzip = rapid.IntRange(0, 2).Draw(t, "gzip") == 0
 	}
 	c.HeaderOp = rapid.SampledFrom([]string{"", "", "set", "send"}).Draw(t, "headerOp")
+	if c.Transport == "httpjson" && c.After < 0 && rapid.IntRange(0, 3).Draw(t, "rawUpload") == 0 {
+		c.ReqType = rapid.SampledFrom([]string{"image/jpeg", "application/json; charset=utf-8", "text/plain", "application/x-unknown"}).Draw(t, "reqType")
+		c.Accept = rapid.SampledFrom([]string{"", "", "image/*", "application/json", "*/*", "application/protobuf"}).Draw(t, "acceptErr")
+	}
 	if strings.HasPrefix(c.Transport, "grpcweb") {
 		c.JSONSub = rapid.IntRange(0, 2).Draw(t, "jsonSub") == 0
 	}
@@ -574,8 +591,11 @@ func record(c Case) {
 	if c.HeaderOp != "" {
 		cl = append(cl, "handler-header-op="+c.HeaderOp)
 	}
+	if c.ReqType != "" {
+		cl = append(cl, "raw-upload-request")
+	}
 	if needsEsc || len(c.Details) > 0 || c.Code > 16 || c.After > 0 {
-		key = fmt.Sprintf("%s|%d|%q|%v|%d|%v|%v|%s", c.Transport, c.Code, c.Msg, c.Details, c.After, c.Gzip, c.JSONSub, c.HeaderOp)
+		key = fmt.Sprintf("%s|%d|%q|%v|%d|%v|%v|%s|%s|%s", c.Transport, c.Code, c.Msg, c.Details, c.After, c.Gzip, c.JSONSub, c.HeaderOp, c.ReqType, c.Accept)
 	}
 	evid.Eval(key, cl...)
 }
